@@ -130,6 +130,19 @@ class Ctx:
         with mp.get_context("fork").Pool(1) as pool:
             c = [jsonable(r) for _, r in pool.apply(_pool_call, (list(enumerate(items)),))]
         _POOL_FN = None
+        if a == c and a != b:
+            # The first execution in this process equals the one in a fresh process, but executing the same items again in this
+            # process differs: every execution builds fresh objects, so the code under test keeps state between them (a
+            # module- or class-level cache, a hoisted scratch buffer).  That is the code's doing, not the harness's.
+            k_ = next(i for i, (x, y) in enumerate(zip(a, b)) if x != y)
+            self.violation(f"{self.prop}:result-depends-on-earlier-executions",
+                           f"executing probe item {k_} a second time in the same process (on fresh objects) gives a different "
+                           f"observation than the first time, while a fresh process reproduces the first: the code under test "
+                           f"carries state from one instance to the next.  first: {json.dumps(a[k_], default=str)[:300]} second: "
+                           f"{json.dumps(b[k_], default=str)[:300]}",
+                           {"probe": "prove_deterministic", "item_index": k_,
+                            "how_to_reproduce": f"python -m mc check {self.prop} --tier {self.tier}"})
+            return
         if a != b or a != c:
             raise HarnessError(f"harness nondeterminism in {self.prop}: repeated executions differ")
 
@@ -220,6 +233,10 @@ def run_replay(path: str) -> int:
     with open(path) as f:
         body = json.load(f)
     mod = load_check(body["property"])
+    if isinstance(body["data"], dict) and body["data"].get("probe") == "prove_deterministic":
+        print(f"this finding comes from the repeated-execution probe of the check; re-run: {body['data'].get('how_to_reproduce')}")
+        print(f"VIOLATION property={body['property']} replay={path}\n  signature={body.get('signature')}\n  {body.get('what')}")
+        return 1
     res = mod.replay(body["data"])
     again = mod.replay(body["data"])
     if jsonable(res) != jsonable(again):
